@@ -709,8 +709,8 @@ func (w *worker) runDataset(idx int) {
 			}
 			ctx.Violation(key, fmt.Sprintf("dataset %d (%s, %d objects) %q: %s", idx, reg.Name, len(pop), trunc(full), what), rp)
 		}
-		class := strings.ToLower(cmd) + ":" + strings.ToLower(strings.SplitN(label, ":", 2)[0])
-		if strings.Contains(label, "+CLIPBY") {
+		class := strings.ToLower(cmd) + ":" + strings.ToLower(strings.SplitN(a.kind, ":", 2)[0])
+		if clip != "" {
 			class += "+clipby"
 		}
 		seen := map[string]bool{}
